@@ -64,26 +64,37 @@ impl Storage<Key> for CountingRef {
 }
 
 /// Logical keys. Variants are different constructions of an equal key.
-pub const NKEYS: usize = 5;
+pub const NKEYS: usize = 8;
 
 static SL_AB: [Label; 2] = [Label::from_static_parts("a", "1"), Label::from_static_parts("b", "2")];
 static SL_BA: [Label; 2] = [Label::from_static_parts("b", "2"), Label::from_static_parts("a", "1")];
 static SL_A: [Label; 1] = [Label::from_static_parts("a", "1")];
 static SL_HH: [Label; 2] = [Label::from_static_parts("h", "a"), Label::from_static_parts("h", "b")];
 
-fn same_shard_name() -> &'static str {
+/// Names whose keys share the low hash byte (hence the registry shard) of "k0".
+fn same_shard_names() -> &'static Vec<String> {
     use std::sync::OnceLock;
-    static N: OnceLock<String> = OnceLock::new();
+    static N: OnceLock<Vec<String>> = OnceLock::new();
     N.get_or_init(|| {
         let target = Key::from_name("k0").get_hash() & 0xff;
-        for i in 0..100_000 {
+        let mut out = vec![];
+        for i in 0..1_000_000 {
             let n = format!("s{}", i);
             if Key::from_name(n.clone()).get_hash() & 0xff == target {
-                return n;
+                out.push(n);
+                if out.len() == 4 {
+                    break;
+                }
             }
         }
-        "s0".to_string()
+        while out.len() < 4 {
+            out.push(format!("fallback{}", out.len()));
+        }
+        out
     })
+}
+fn same_shard_name() -> &'static str {
+    &same_shard_names()[0]
 }
 
 fn build_key(logical: usize, variant: u8) -> Key {
@@ -107,6 +118,11 @@ fn build_key(logical: usize, variant: u8) -> Key {
             0 => Key::from_static_parts("k0", &SL_A),
             _ => Key::from_parts("k0", vec![Label::new("a", "1")]),
         },
+        // three more keys in the shard of k0: with k0 and key 2 they make a per-shard table grow
+        5..=7 => match variant % 2 {
+            0 => Key::from_name(same_shard_names()[logical - 4].as_str()),
+            _ => Key::from_name(same_shard_names()[logical - 4].clone()),
+        },
         // two labels sharing one name: equal whatever the order they were supplied in
         _ => match variant % 4 {
             0 => Key::from_static_parts("k1", &SL_HH),
@@ -120,6 +136,9 @@ fn build_key(logical: usize, variant: u8) -> Key {
 /// Variant 4: one lazily hashed key per logical key, shared by reference between the threads of a
 /// run (what the macros do with their `static` keys), so that the first hashing can race.
 pub const SHARED_VARIANT: u8 = 4;
+/// Variant 5 (Create only): the closure handed to get_or_create panics.
+pub const PANIC_VARIANT: u8 = 5;
+struct OpPanic;
 static SHARED: Mutex<Vec<&'static Key>> = Mutex::new(vec![]);
 fn fresh_shared_keys() {
     let v: Vec<&'static Key> = (0..NKEYS)
@@ -129,7 +148,8 @@ fn fresh_shared_keys() {
                 1 => Key::from_static_parts("k1", &SL_AB),
                 2 => Key::from_static_name(Box::leak(same_shard_name().to_string().into_boxed_str())),
                 3 => Key::from_static_parts("k0", &SL_A),
-                _ => Key::from_static_parts("k1", &SL_HH),
+                4 => Key::from_static_parts("k1", &SL_HH),
+                _ => Key::from_static_name(Box::leak(same_shard_names()[i - 4].clone().into_boxed_str())),
             };
             &*Box::leak(Box::new(k))
         })
@@ -229,6 +249,26 @@ pub struct C06Registry;
 fn do_op(reg: &Registry<Key, CountingRef>, op: &Op) -> Res {
     let id_of = |c: &Arc<Cell>| c.id;
     match op {
+        // the caller's closure panics after it has seen the storage (caught here): the entry exists
+        // all the same, and the shard lock it may have poisoned must not hide anything later
+        Op::Create { kind, key, variant } if *variant == PANIC_VARIANT => with_key(*key, 0, |k| {
+            let mut got = u64::MAX;
+            let boom = |c: &Arc<Cell>| -> u64 {
+                got = c.id;
+                std::panic::resume_unwind(Box::new(OpPanic))
+            };
+            let r = std::panic::catch_unwind(std::panic::AssertUnwindSafe(|| match kind {
+                0 => reg.get_or_create_counter(k, boom),
+                1 => reg.get_or_create_gauge(k, boom),
+                _ => reg.get_or_create_histogram(k, boom),
+            }));
+            if let Err(p) = r {
+                if !p.is::<OpPanic>() {
+                    std::panic::resume_unwind(p);
+                }
+            }
+            Res::Id(got)
+        }),
         Op::Create { kind, key, variant } => with_key(*key, *variant, |k| {
             Res::Id(match kind {
                 0 => reg.get_or_create_counter(k, id_of),
@@ -298,12 +338,20 @@ impl Scenario for C06Registry {
         200
     }
     fn plan(&self, r: &mut Rng, _tier: Tier) -> Plan {
-        let nkeys = r.range(1, NKEYS as u64) as usize;
+        // "crowded" profile: three same-shard keys of one kind are there from the start, so a fourth
+        // makes that shard's table grow while the earlier ones are in use
+        let crowded = r.chance(120);
+        let nkeys = if crowded { NKEYS } else { r.range(1, 5) as usize };
         let nkinds = r.range(1, 3) as u8;
         let nthreads = r.range(2, 4) as usize;
         let mut prefill = vec![];
-        for _ in 0..r.below(3) {
-            prefill.push((r.below(nkinds as u64) as u8, r.below(nkeys as u64) as usize));
+        if crowded {
+            let k = r.below(nkinds as u64) as u8;
+            prefill.extend([(k, 0usize), (k, 2), (k, 5)]);
+        } else {
+            for _ in 0..r.below(3) {
+                prefill.push((r.below(nkinds as u64) as u8, r.below(nkeys as u64) as usize));
+            }
         }
         let mut threads = vec![];
         let mut budget = 11i32; // sub-operations the checker has to order
@@ -311,15 +359,21 @@ impl Scenario for C06Registry {
             let n = r.range(1, 4);
             let mut ops = vec![];
             for _ in 0..n {
-                let kind = r.below(nkinds as u64) as u8;
-                let key = r.below(nkeys as u64) as usize;
-                let variant = r.below(6).min(4) as u8; // 4 (twice as likely) = the run's shared lazily hashed key
+                let kind = if crowded && r.chance(700) { prefill[0].0 } else { r.below(nkinds as u64) as u8 };
+                let key = if crowded { *r.pick(&[0usize, 2, 5, 6, 7, 6, 7, 1]) } else { r.below(nkeys as u64) as usize };
+                // 4 (twice as likely) = the run's shared lazily hashed key; 5 = panicking closure (Create)
+                let variant = match r.below(8) {
+                    v @ 0..=3 => v as u8,
+                    4 | 5 => SHARED_VARIANT,
+                    6 => PANIC_VARIANT,
+                    _ => 0,
+                };
                 let op = match r.below(20) {
                     0..=8 => Op::Create { kind, key, variant },
                     9..=11 => Op::Get { kind, key, variant },
                     12..=14 => Op::Delete { kind, key, variant },
                     15 => Op::Clear,
-                    16 => Op::Retain { kind, keep: r.below(1 << nkeys) as u8 },
+                    16 => Op::Retain { kind, keep: r.below(1u64 << nkeys) as u8 },
                     17..=18 => Op::Handles { kind },
                     _ => Op::Visit { kind },
                 };
